@@ -53,13 +53,18 @@ func goEnv() []string {
 func LoadWorld(repo string, mods ...string) (*World, error) {
 	w := &World{Repo: repo, Fset: token.NewFileSet(), ByPath: map[string]*packages.Package{}, SSAPkg: map[string]*ssa.Package{}}
 	var roots []*packages.Package
+	ov, err := overlayMap()
+	if err != nil {
+		return nil, err
+	}
 	for _, m := range mods {
 		cfg := &packages.Config{
-			Mode:  packages.LoadAllSyntax,
-			Dir:   filepath.Join(repo, m),
-			Fset:  w.Fset,
-			Tests: false,
-			Env:   goEnv(),
+			Mode:    packages.LoadAllSyntax,
+			Dir:     filepath.Join(repo, m),
+			Fset:    w.Fset,
+			Tests:   false,
+			Env:     goEnv(),
+			Overlay: ov,
 		}
 		pkgs, err := packages.Load(cfg, "./...")
 		if err != nil {
